@@ -272,7 +272,7 @@ func c15Judge(e xSpec) (clause, detail string) {
 		return "xmlname", fmt.Sprint(n)
 	}
 	// (b) token stream
-	t2, err := goDOM(raw.TokenReader(), 1000)
+	t2, err := goDOM(raw.TokenReader(), 100000)
 	if err != nil {
 		return "token-stream", err.Error()
 	}
@@ -285,7 +285,7 @@ func c15Judge(e xSpec) (clause, detail string) {
 	if err := raw.Decode(&again); err != nil {
 		return "decode-error", err.Error()
 	}
-	t4, err := goDOM(again.TokenReader(), 1000)
+	t4, err := goDOM(again.TokenReader(), 100000)
 	if err != nil {
 		return "decode-token-stream", err.Error()
 	}
@@ -297,7 +297,7 @@ func c15Judge(e xSpec) (clause, detail string) {
 	if err != nil {
 		return "marshal-error", err.Error()
 	}
-	t1, err := goDOM(xml.NewDecoder(bytes.NewReader(out)), 1000)
+	t1, err := goDOM(xml.NewDecoder(bytes.NewReader(out)), 100000)
 	if err != nil {
 		return "marshal-unreadable", fmt.Sprintf("%v: %s", err, out)
 	}
@@ -313,7 +313,7 @@ func c15Judge(e xSpec) (clause, detail string) {
 	if err := xml.Unmarshal(out2, &prop2); err != nil || len(prop2.Raw) != 3 {
 		return "marshal-in-prop-unreadable", fmt.Sprintf("%v: %s", err, out2)
 	}
-	t3, err := goDOM(prop2.Raw[1].TokenReader(), 1000)
+	t3, err := goDOM(prop2.Raw[1].TokenReader(), 100000)
 	if err != nil || t3.Canon() != want {
 		return "marshal-in-prop-tree", fmt.Sprintf("got %v (%v) want %s; written as %s", t3, err, want, out2)
 	}
@@ -409,6 +409,25 @@ func c15All() []xSpec {
 				}
 			}
 		}
+	}
+	return out
+}
+
+// c15Deep: linear chains far deeper than anything a property usually holds ("every nesting depth")
+func c15Deep() []xSpec {
+	var out []xSpec
+	for _, depth := range []int{33, 64, 200, 1000} {
+		var cur *xSpec
+		for k := depth; k >= 1; k-- {
+			x := xSpec{Name: k % len(xNames), NS: k % 5, Attr: k % 5, Content: 0}
+			if cur != nil {
+				x.Children = []xSpec{*cur}
+			} else {
+				x.Content = 1
+			}
+			cur = &x
+		}
+		out = append(out, *cur)
 	}
 	return out
 }
@@ -527,6 +546,18 @@ func c15TypedJudge(tc c15Typed) (clause, detail string) {
 	}
 	if errD == nil && !c15Equal(direct, via) {
 		return "typed-value-differs", fmt.Sprintf("direct %s via raw %s", c15Dump(direct), c15Dump(via))
+	}
+	// ResourceType.Is answers by expanded name: compare with the independently parsed tree
+	if rt, ok := via.(*internal.ResourceType); ok && errD == nil {
+		if tree, err := indep.Parse([]byte(tc.XML)); err == nil {
+			for _, n := range []xml.Name{{Space: "DAV:", Local: "collection"}, {Space: "", Local: "collection"}, {Space: "DAV:", Local: "principal"}, {Space: "", Local: "principal"},
+				{Space: "urn:ietf:params:xml:ns:caldav", Local: "calendar"}, {Space: "", Local: "calendar"}, {Space: "DAV:", Local: "calendar"}} {
+				want := tree.First(n.Space, n.Local) != nil
+				if got := rt.Is(n); got != want {
+					return "resourcetype-is-differs", fmt.Sprintf("Is(%v)=%v, the document has such a child: %v", n, got, want)
+				}
+			}
+		}
 	}
 	// Prop.Decode / Response.DecodeProp path
 	if errD == nil {
@@ -717,6 +748,8 @@ func init() {
 				}
 			}
 		}
+		// linear chains of depth 33 .. 1000
+		docs = append(docs, c15Deep()...)
 		// depth 3
 		for _, ro := range red {
 			for _, c := range red {
@@ -736,7 +769,7 @@ func init() {
 				}
 			}
 		}
-		r.Rule = fmt.Sprintf("every element tree of the family: element = name{A:x,B:y,(none):z,A:y} x namespace expression{inherit, redeclare default, declare prefix, reuse outer prefix, undeclare} x attributes{none, entities, prefixed, xml:lang, two} x content{empty,text,entities+charref,CDATA,comment,mixed,whitespace}; root over all 700 variants x [no child | 1 child over %d variants | 2 children over %d^2]; depth 3 over the reduced set cubed; each captured as the middle child of a DAV:prop with siblings before/after; plus %d typed property documents; non-trivial = every generated document (all distinct)", map[bool]int{false: len(red), true: len(all)}[full], len(pick), len(c15TypedCases()))
+		r.Rule = fmt.Sprintf("every element tree of the family: element = name{A:x,B:y,(none):z,A:y} x namespace expression{inherit, redeclare default, declare prefix, reuse outer prefix, undeclare} x attributes{none, entities, prefixed, xml:lang, two} x content{empty,text,entities+charref,CDATA,comment,mixed,whitespace}; root over all 700 variants x [no child | 1 child over %d variants | 2 children over %d^2]; depth 3 over the reduced set cubed; 4 linear chains of depth 33, 64, 200 and 1000; each captured as the middle child of a DAV:prop with siblings before/after; plus %d typed property documents; non-trivial = every generated document (all distinct)", map[bool]int{false: len(red), true: len(all)}[full], len(pick), len(c15TypedCases()))
 		r.Explanation = "for each generated well-formed document: T0 = independent namespace-expanded DOM; the RawXMLValue captured by xml.Unmarshal must (a) marshal (alone and inside its Prop) to bytes that encoding/xml re-reads as T0, (b) produce a finite, balanced, well-nested token stream whose tree is T0, (d) leave its siblings correctly decoded; (c) typed decoding through RawXMLValue.Decode / Prop.Decode equals direct xml.Unmarshal of the same element for every typed property structure in 3 namespace styles x 2 whitespace styles"
 		r.Extra["documents"] = len(docs)
 		r.Parallel(len(docs), func(i int, s *engine.Shard) {
